@@ -181,7 +181,7 @@ def dec_map(s):
         return out
     for e in s.split(';'):
         k, _, v = e.partition('=')
-        out[k] = [] if v == '~' else v.split(',')
+        out[k] = [] if v in ('~', '~~') else v.split(',')
     return out
 
 
@@ -251,6 +251,13 @@ class Cmp:
         if op in ('serve', 'h.serve') and '\t||\t' in impl and '\t||\t' in model:
             i, m = split_resp(impl), split_resp(model)
             if len(i) == 2 and len(m) == 3:
+                if mode == 'c16h':
+                    # histories: preflights answered while the documented state machine says "debug off and failing"
+                    # (the model, which follows it by C09, answers with the failure status): nothing but Vary may differ
+                    rd = parse_resp(m[1])
+                    if op == 'h.serve' and rd and rd['next'] == '0' and rd['status'] == '403':
+                        return i[0], m[1]
+                    return '', ''
                 if mode in ('c11', 'c16', 'c03', 'vary'):
                     sc = serve_case(case)
                     ri, rs, rd = parse_resp(i[0]), parse_resp(m[0]), parse_resp(m[1])
@@ -341,8 +348,17 @@ def run_suite(stage, suite, seed, n, workdir, extra=()):
     cmd = [BUILD + '/harness', '-suite', suite, '-seed', str(seed), '-n', str(n), '-cases', cases, '-impl', impl] + list(extra)
     rc, out = sh(cmd, timeout=3000)
     if rc != 0:
+        if 'panic:' in out or 'fatal error:' in out:
+            raise HarnessCrash(suite, seed, out)
         raise RuntimeError('harness failed: ' + out)
     return run_model(stage, cases, impl, model)
+
+
+class HarnessCrash(Exception):
+    """The harness process died of a panic that escaped every guard: the implementation (or the runtime) crashed."""
+    def __init__(self, suite, seed, out):
+        Exception.__init__(self, 'harness crashed in suite %s' % suite)
+        self.suite, self.seed, self.out = suite, seed, out
 
 
 def run_replay_file(stage, path, workdir, tag):
@@ -392,25 +408,31 @@ PROPS = {
     'C02': dict(suites=[('intents', 6000, 200000), ('serve', 3000, 80000), ('tree', 500, 20000), ('acrh', 1000, 40000)],
                 cmps=[C('intents', 'firsttoken', 'spec'), C('serve', 'full', 'tie'), C('tree', 'treebits', 'spec'), C('acrh', 'full', 'spec')]),
     # C03 speaks of *allowed* origins: the ties of the two origin-decision components (tree, request-side lexer) belong to it
-    'C03': dict(suites=[('serve', 6000, 150000), ('tree', 800, 30000), ('lex', 800, 30000)],
-                cmps=[C('serve', 'c03', 'tie'), C('tree', 'treebits', 'spec'), C('lex', 'full', 'tie', only=('parse',))]),
+    # ... and "the configuration" is the one in force after any history of Reconfigure calls, also for handlers wrapped earlier
+    'C03': dict(suites=[('serve', 6000, 150000), ('tree', 800, 30000), ('lex', 800, 30000), ('history', 120, 3000)],
+                cmps=[C('serve', 'c03', 'tie'), C('tree', 'treebits', 'spec'), C('lex', 'full', 'tie', only=('parse',)), C('history', 'c03', 'tie')]),
     'C04': dict(suites=[('validate', 3000, 100000), ('names', 300, 20000), ('lex', 1000, 20000)],
                 cmps=[C('validate', 'accept', 'spec'), C('names', 'full', 'tie'), C('lex', 'full', 'tie', only=('pattern',))]),
     'C05': dict(suites=[('validate', 6000, 150000)], cmps=[C('validate', 'full', 'spec')]),
     'C06': dict(suites=[('roundtrip', 1500, 60000), ('history', 150, 4000), ('validate', 2000, 50000)],
                 cmps=[C('roundtrip', 'full', 'spec'), C('history', 'dec', 'tie'), C('validate', 'full', 'tie')]),
-    'C07': dict(suites=[('schedule', 250, 6000), ('stress', 6, 20), ('history', 100, 2000)],
-                cmps=[C('schedule', 'full', 'spec'), C('stress', 'full', 'spec'), C('history', 'dec', 'tie')]),
+    # the adversarial history (in-place writes to Config() results and to the Config passed in) checks "never mutated after publication"
+    'C07': dict(suites=[('schedule', 250, 6000), ('stress', 6, 20), ('history', 100, 2000, ('-adversarial',))],
+                cmps=[C('schedule', 'full', 'spec'), C('stress', 'full', 'spec'), C('history', 'dec', 'spec')]),
     'C08': dict(suites=[('history', 250, 6000)], cmps=[C('history', 'dec', 'spec')]),
     'C09': dict(suites=[('history', 250, 6000), ('pairs09', 3000, 100000)], cmps=[C('history', 'dec', 'spec'), C('pairs09', 'full', 'spec')]),
-    'C10': dict(suites=[('serve', 5000, 120000), ('pairs10', 5000, 150000)], cmps=[C('serve', 'vary', 'tie'), C('pairs10', 'full', 'spec')]),
-    'C11': dict(suites=[('serve', 6000, 150000)], cmps=[C('serve', 'c11', 'spec')]),
+    # second pairs10 run: wrapped handlers that overwrite in place whatever the middleware installed (a shared slice handed out
+    # once poisons the Vary of every later response of the process)
+    'C10': dict(suites=[('serve', 5000, 120000), ('pairs10', 5000, 150000), ('pairs10', 2500, 50000, ('-adversarial',))], cmps=[C('serve', 'vary', 'tie'), C('pairs10', 'full', 'spec')]),
+    # histories: "a configured middleware" is a state, and handlers wrapped before a reconfiguration must follow it
+    'C11': dict(suites=[('serve', 6000, 150000), ('history', 120, 3000)], cmps=[C('serve', 'c11', 'spec'), C('history', 'c11', 'spec')]),
     'C12': dict(suites=[('history', 150, 4000, ('-adversarial',)), ('serve', 2000, 50000, ('-adversarial',))],
                 cmps=[C('history', 'dec', 'spec'), C('serve', 'dec', 'spec')]),
     'C13': dict(suites=[('lex', 4000, 150000)], cmps=[C('lex', 'full', 'tie', only=('pattern',)), C('lex', 'full', 'tie', only=('parse',))]),
     'C14': dict(suites=[('acrh', 3000, 150000), ('serve', 2000, 50000)], cmps=[C('acrh', 'full', 'spec'), C('serve', 'bitsH', 'spec')]),
     'C15': dict(suites=[('twins', 4000, 150000), ('validate', 2000, 50000)], cmps=[C('twins', 'full', 'spec'), C('validate', 'full', 'tie')]),
-    'C16': dict(suites=[('serve', 8000, 200000)], cmps=[C('serve', 'c16', 'tie')]),
+    # "debug off" is a state of the documented state machine (C09): histories belong to the check
+    'C16': dict(suites=[('serve', 8000, 200000), ('history', 150, 4000)], cmps=[C('serve', 'c16', 'tie'), C('history', 'c16h', 'tie')]),
     'C17': dict(suites=[('lex', 1000, 30000), ('tree', 500, 20000), ('acrh', 1000, 30000), ('validate', 1500, 50000),
                         ('serve', 2000, 60000), ('errors', 50, 1000), ('history', 50, 1000)],
                 cmps=[C(s, 'panic', 'spec') for s in ('lex', 'tree', 'acrh', 'validate', 'serve', 'errors', 'history')]),
